@@ -287,6 +287,73 @@ Lemma wf_events_app : forall a b seen, wf_events seen (a ++ b) <-> wf_events see
 Proof. induction a as [|e a IH]; intros b seen; cbn; [tauto|]. rewrite IH. tauto. Qed.
 
 (* ACK / RST matching an outstanding exchange: no further copy, ever; RST fails the request at that instant, ACK does not *)
+(* what _remove_exchange leaves behind for the exchange it ends (state level, any invariant state) *)
+Lemma remove_exchange_dead : forall seen st1 r mid b mon h st2 o, Struct seen st1 ->
+  xget (r, mid) (active_exchanges st1) = Some (mon, h) -> _remove_exchange st1 r mid b = (st2, o) ->
+  mon = m_rid (h_message h) /\ In mon seen /\ ~ live mon st2 /\ copies mon o = [] /\
+  (b = false -> forall t e, In (OFail t mon e) o -> e = NetworkError /\ is_refusing st1 r = true).
+Proof.
+  intros seen st1 r mid b mon h st2 o S X E.
+  destruct (recv_shape _ _ _ _ _ _ _ S E) as [(X' & _)|(mon' & h' & st2' & o1 & o2 & X' & -> & Ho1c & Ho1r & En & Er & Es & Ex & Eb & Enr & _ & _ & C)]; [congruence|].
+  rewrite X in X'. inv X'.
+  destruct (pop_facts _ st1 _ mon' h' S X) as (Hin & _ & Hmon & _ & _ & Hrest & Hbr & _). cbn [fst] in *.
+  change r with (fst (r, mid)) in C.
+  apply (continue_after_pop seen st1 (r, mid) mon' h' st2' st2 o2 S X En Er Ex Eb Enr) in C.
+  destruct C as (_ & _ & q & Q & Hq). cbn [fst] in *.
+  assert (Hseen : In mon' seen).
+  { eapply live_rids_seen; [exact S|]. unfold live_rids. apply in_app_iff. left. apply in_map_iff. exists ((r, mid), (mon', h')). split; auto. }
+  assert (Hdead : ~ live mon' st2 /\ copies mon' o2 = [] /\ forall t e, In (OFail t mon' e) o2 -> e = NetworkError /\ is_refusing st1 r = true).
+  { destruct q as [|[m2 mon2] rest].
+    - destruct Hq as (-> & Ex' & Eb' & _ & _). splits; auto; [|intros t e []]. intros Hl. apply live_iff in Hl. rewrite Ex', Eb' in Hl. destruct Hl as [[e [He Hr]]|Hl].
+      + apply Hrest in He. tauto.
+      + apply in_back_qdel_sub in Hl. eapply Hbr; eauto.
+    - destruct Hq as (-> & Hr2 & Hwf2 & Hseen2 & t & st1' & oe & Hrg & S1' & _ & _ & Ex' & Eb' & Hcase).
+      assert (Hne2 : m_rid m2 <> mon') by (apply Hbr; apply (in_back_rids _ r _ (m2, m_rid m2) (qget_in _ _ _ Q)); left; reflexivity).
+      assert (Hd1' : ~ live mon' st1').
+      { intros Hl. apply live_iff in Hl. rewrite Ex', Eb' in Hl. destruct Hl as [[e [He Hr]]|Hl].
+        * apply in_xset in He. destruct He as [->|[He _]]; [unfold e_rid, e_timer in Hr; cbn in Hr; congruence|]. apply Hrest in He. tauto.
+        * eapply (in_back_qset_sub _ r _ rest) in Hl; eauto; [eapply Hbr; eauto|apply (s_bl_nodup _ _ S)|intros y Hy; right; exact Hy]. }
+      destruct Hcase as [(_ & -> & ->)|(Hrf & D & ->)]; splits; auto.
+      + cbn. assert (m_rid m2 =? mon' = false) as -> by (apply Z.eqb_neq; auto). reflexivity.
+      + intros t' e Hi. cbn in Hi. destruct Hi as [Hi|[Hi|[]]]; discriminate.
+      + intros Hl. apply Hd1'. apply (proj1 (live_dispatch _ _ _ _ D)). exact Hl.
+      + cbn. apply copies_fail_only. apply (proj2 (live_dispatch _ _ _ _ D)).
+      + intros t' e Hi. cbn in Hi. destruct Hi as [Hi|Hi]; [discriminate|]. split; auto.
+        unfold mm_dispatch_error, tm_dispatch_error in D. inv D. apply in_map_iff in Hi. destruct Hi as [p [Hp _]]. inv Hp. reflexivity. }
+  destruct Hdead as (Hd1 & Hd2 & Hd3). splits; auto.
+  - rewrite copies_app, Hd2, app_nil_r. destruct Ho1c as [->|[_ ->]]; reflexivity.
+  - intros Hb t e Hi. apply in_app_iff in Hi. destruct Hi as [Hi|Hi]; [|eapply Hd3; eauto].
+    destruct Ho1c as [->|[Hb' _]]; [inv Hi|congruence].
+Qed.
+
+(* a piggy-backed response is an ACK with the message ID of the exchange: no further copy, in this step or in any continuation *)
+Lemma piggyback_stops : forall mid0 draws evs1 r mid rid evs2 mon h,
+  wf_run draws (evs1 ++ EResponse r 0 mid rid :: evs2) ->
+  xget (r, mid) (active_exchanges (final_of mid0 draws evs1)) = Some (mon, h) ->
+  let st1 := final_of mid0 draws evs1 in
+  let '(st2, o) := step st1 (EResponse r 0 mid rid) in
+  let '(st3, os) := run st2 evs2 in
+  mon = m_rid (h_message h) /\ copies mon (o ++ concat os) = [] /\
+  forall t e, In (OFail t mon e) o -> e = NetworkError /\ is_refusing st1 r = true.
+Proof.
+  intros mid0 draws evs1 r mid rid evs2 mon h [Hd W] X st1.
+  apply wf_events_app in W. destruct W as [W1 [_ W2]]. cbn [seen_after] in W2.
+  destruct (reach mid0 draws evs1 (conj Hd W1)) as (S & _). fold st1 in S, X.
+  destruct (step st1 (EResponse r 0 mid rid)) as [st2 o] eqn:E. destruct (run st2 evs2) as [st3 os] eqn:R.
+  destruct (step_struct _ _ (EResponse r 0 mid rid) _ _ S I E) as [S2 _]. cbn [seen_after] in S2.
+  cbn [step] in E. unfold dispatch_response in E. cbn [Z.eqb] in E.
+  destruct (_remove_exchange st1 r mid false) as [sta o1] eqn:E1.
+  destruct (remove_exchange_dead _ _ _ _ _ _ _ _ _ S X E1) as (Hmon & Hseen & Hdead & Hc1 & Hf1).
+  unfold tm_process_response in E.
+  destruct (existsb (fun q => (fst q =? rid) && (snd q =? r)) (outgoing_requests sta)); injection E as Es Eo; subst st2 o.
+  - splits; auto.
+    + rewrite !copies_app, Hc1. cbn. apply (dead_run evs2 _ _ st3 os mon S2 W2 Hseen); auto.
+    + intros t e Hi. apply in_app_iff in Hi. destruct Hi as [Hi|Hi]; [apply (Hf1 eq_refl t e Hi)|]. cbn in Hi. destruct Hi as [Hi|[]]. discriminate.
+  - splits; auto.
+    + rewrite !copies_app, Hc1. cbn. apply (dead_run evs2 _ _ st3 os mon S2 W2 Hseen); auto.
+    + intros t e Hi. apply in_app_iff in Hi. destruct Hi as [Hi|Hi]; [apply (Hf1 eq_refl t e Hi)|]. destruct Hi.
+Qed.
+
 Lemma ack_stops : forall mid0 draws evs1 r b mid evs2 mon h,
   wf_run draws (evs1 ++ ERecv r b mid :: evs2) ->
   xget (r, mid) (active_exchanges (final_of mid0 draws evs1)) = Some (mon, h) ->
@@ -528,4 +595,199 @@ Proof.
   - rewrite copies_app. rewrite (dead_run evs2 _ st2 st3 os rid S2 W2 (or_introl eq_refl) Hdead R), app_nil_r.
     apply copies_fail_only. intros t' m' Hi. destruct Hi as [Hi|Hi]; [discriminate|]. eapply (proj2 (live_dispatch _ _ _ _ D)); eauto.
   - right. rewrite Eoe, En1. apply in_map_iff. exists (rid, r). split; auto. apply filter_In. split; [rewrite Eo1; apply in_app_iff; right; left; reflexivity|cbn; apply Z.eqb_refl].
+Qed.
+
+(* ---- round 5 ---- *)
+(* a Reset for an outstanding exchange whose request is still pending fails it with MessageError, at that instant; any state *)
+Lemma rst_fails_pending : forall st r mid mon h, xget (r, mid) (active_exchanges st) = Some (mon, h) ->
+  existsb (fun q => fst q =? mon) (outgoing_requests st) = true ->
+  In (OFail (now st) mon MessageError) (snd (step st (ERecv r true mid))).
+Proof.
+  intros st r mid mon h Hx Hp. cbn. unfold _remove_exchange. rewrite Hx. unfold tm_fail. cbn [outgoing_requests set_exchanges now]. rewrite Hp.
+  destruct (_continue_backlog _ r). cbn. left. reflexivity.
+Qed.
+(* ... and in a reachable state the request of an outstanding exchange IS pending unless it was cancelled or answered *)
+Lemma exchange_request_pending : forall mid0 draws evs e, wf_run draws evs -> In e (active_exchanges (final_of mid0 draws evs)) ->
+  In (e_rid e, e_remote e) (outgoing_requests (final_of mid0 draws evs)) \/ In (gone_key (e_rid e)) (recv_keys evs).
+Proof. intros mid0 draws evs e W He. destruct (reach mid0 draws evs W) as (_ & _ & _ & [P1 _]). apply P1. exact He. Qed.
+
+(* "instead of hanging": once nothing is left in the message layer the request has failed *)
+Lemma quiescent_means_failed : forall mid0 draws evs t m, wf_run draws evs -> In (OSend t m) (trace_of mid0 draws evs) ->
+  ~ In (m_remote m, m_mid m) (recv_keys evs) -> ~ In (err_key (m_remote m)) (recv_keys evs) -> ~ In (gone_key (m_rid m)) (recv_keys evs) ->
+  active_exchanges (final_of mid0 draws evs) = [] ->
+  (exists T0 t0, copies (m_rid m) (trace_of mid0 draws evs) = sched_of m T0 t0 (Z.to_nat (MAX_RETRANSMIT (m_tuning m) + 1)) /\
+    In (OFail (T0 + t0 * (2 ^ (MAX_RETRANSMIT (m_tuning m) + 1) - 1)) (m_rid m) ConRetransmitsExceeded) (trace_of mid0 draws evs)) \/
+  (exists tf, In (OFail tf (m_rid m) NetworkError) (trace_of mid0 draws evs)).
+Proof.
+  intros mid0 draws evs t m W Hin H1 H2 H3 Hq. destruct (gives_up _ _ _ _ _ W Hin H1 H2 H3) as (T0 & t0 & n & Hc & Hn & Hr & Hle & Hcase).
+  destruct Hcase as [(e & He & _)|[(Hn' & Hf)|Hf]]; [rewrite Hq in He; inv He| |right; exact Hf].
+  left. exists T0, t0. assert (Z.to_nat (MAX_RETRANSMIT (m_tuning m) + 1) = n) as -> by lia. auto.
+Qed.
+
+(* progress: firing the pending timer of an exchange that has retransmissions left re-arms exactly that exchange with the counter
+   increased and the timeout doubled (on a transport that takes the datagram); so R+1 firings reach the give-up *)
+Lemma fire_progress : forall seen st h st' o, Struct seen st -> next_timer st = Some h ->
+  h_counter h < MAX_RETRANSMIT (m_tuning (h_message h)) -> is_refusing st (m_remote (h_message h)) = false ->
+  step st EFire = (st', o) ->
+  let m := h_message h in
+  o = [OSend (Z.max (now st) (h_due h)) m] /\
+  exists mon, xget (m_remote m, m_mid m) (active_exchanges st') =
+    Some (mon, {| h_due := Z.max (now st) (h_due h) + h_timeout h * 2; h_seq := next_seq st; h_message := m;
+                  h_timeout := h_timeout h * 2; h_counter := h_counter h + 1 |}).
+Proof.
+  intros seen st h st' o S N Hc Hr H m. cbn [step] in H. rewrite N in H.
+  destruct (next_timer_facts _ _ N) as (e & He1 & He2 & Hmin).
+  set (sta := set_now st (Z.max (now st) (h_due h))) in *.
+  assert (Sa : Struct seen sta) by (apply struct_set_now; auto).
+  pose proof (retransmit_struct _ _ _ _ _ _ Sa He1 He2 H) as Sh. cbv zeta in Sh. destruct Sh as (_ & _ & _ & X & Sh).
+  destruct Sh as [(_ & st1 & oe & S1 & En1 & Ex & Eb & Eo & Hcase)|(Heq & _)]; [|unfold m in *; lia].
+  destruct Hcase as [(_ & -> & ->)|(Hf & _)]; [|unfold is_refusing in *; cbn in Hf; congruence].
+  split; [reflexivity|]. exists (m_rid m). fold m in Ex. rewrite Ex. unfold xget, xset. cbn [find fst]. rewrite key_eqb_refl. reflexivity.
+Qed.
+
+(* ---- where a NetworkError failure can come from (round 5, audit gap 1) ---- *)
+Definition no_refusal (evs : list event) : Prop := forall r, ~ In (ERefuse r true) evs.
+Definition no_neterr (o : list output) : Prop := forall t rid, ~ In (OFail t rid NetworkError) o.
+(* [clean st res]: run from a state whose transport refuses nothing, the function leaves it that way and fails nobody with NetworkError *)
+Definition clean (st : state) (res : state * list output) : Prop :=
+  refusing st = [] -> refusing (fst res) = [] /\ no_neterr (snd res).
+
+Lemma no_neterr_nil : no_neterr []. Proof. intros t rid []. Qed.
+Lemma no_neterr_app : forall a b, no_neterr a -> no_neterr b -> no_neterr (a ++ b).
+Proof. intros a b Ha Hb t rid Hi. apply in_app_iff in Hi. destruct Hi; [eapply Ha|eapply Hb]; eauto. Qed.
+
+Lemma clean_tm_fail : forall st rid e, e <> NetworkError -> clean st (tm_fail st rid e).
+Proof.
+  intros st rid e He Hr. unfold tm_fail. destruct (existsb _ _); cbn; split; auto; try apply no_neterr_nil.
+  intros t x [Hi|[]]. inv Hi. congruence.
+Qed.
+Lemma clean_tm_dispatch : forall st e r, e <> NetworkError -> clean st (tm_dispatch_error st e r).
+Proof.
+  intros st e r He Hr. unfold tm_dispatch_error. cbn. split; auto. intros t x Hi. apply in_map_iff in Hi. destruct Hi as [p [Hp _]]. inv Hp. congruence.
+Qed.
+Lemma clean_send_via : forall st m, clean st (_send_via_transport st m).
+Proof.
+  intros st m Hr. unfold _send_via_transport, is_refusing. rewrite Hr. cbn. split; auto. intros t x [Hi|[]]. discriminate.
+Qed.
+Lemma clean_send_initially : forall st m mon, clean st (_send_initially st m mon).
+Proof.
+  intros st m mon Hr. unfold _send_initially. destruct (_add_exchange st m mon) as [st1 o1] eqn:A.
+  destruct (add_exchange_facts _ _ _ _ _ A) as (E1 & _ & _ & _).
+  assert (Ho1 : no_neterr o1).
+  { unfold _add_exchange, uniform, _schedule_retransmit in A. destruct (in_backlogs st (m_remote m)); cbn in A; inv A; intros t x [Hi|[]]; discriminate. }
+  destruct (clean_send_via st1 m) as [C1 C2]; [rewrite E1; exact Hr|].
+  destruct (_send_via_transport st1 m) as [st2 o2]. cbn in *. split; auto. apply no_neterr_app; auto.
+Qed.
+Lemma clean_loop : forall fuel st r, clean st (_continue_backlog_loop fuel st r).
+Proof.
+  induction fuel as [|fuel IH]; intros st r Hr; cbn [_continue_backlog_loop].
+  - cbn. split; auto. intros t x [Hi|[]]. discriminate.
+  - destruct (qget r (backlogs st)) as [q|]; [|cbn; split; auto; apply no_neterr_nil].
+    destruct (has_exchange_with st r); [cbn; split; auto; apply no_neterr_nil|].
+    destruct q as [|[m mon] rest]; [cbn; split; auto; apply no_neterr_nil|].
+    destruct (clean_send_initially (set_backlogs st (qset r rest (backlogs st))) m mon Hr) as [C1 C2].
+    destruct (_send_initially _ m mon) as [st1 o1]. cbn in C1, C2.
+    destruct (IH st1 r C1) as [D1 D2]. destruct (_continue_backlog_loop fuel st1 r) as [st2 o2]. cbn in *. split; auto. apply no_neterr_app; auto.
+Qed.
+Lemma clean_continue : forall st r, clean st (_continue_backlog st r).
+Proof.
+  intros st r Hr. unfold _continue_backlog. destruct (qget r (backlogs st)); [apply clean_loop; auto|].
+  cbn. split; auto. intros t x [Hi|[]]. discriminate.
+Qed.
+Lemma clean_remove : forall st r mid b, clean st (_remove_exchange st r mid b).
+Proof.
+  intros st r mid b Hr. unfold _remove_exchange. destruct (xget (r, mid) (active_exchanges st)) as [[mon h]|]; [|cbn; split; auto; apply no_neterr_nil].
+  set (st1 := set_exchanges st (xdel (r, mid) (active_exchanges st))).
+  assert (C : clean st1 (if b then tm_fail st1 mon MessageError else (st1, []))).
+  { destruct b; [apply clean_tm_fail; discriminate|]. intros _. cbn. split; auto. apply no_neterr_nil. }
+  destruct (if b then tm_fail st1 mon MessageError else (st1, [])) as [st2 o1]. destruct (C Hr) as [C1 C2]. cbn in C1, C2.
+  destruct (clean_continue st2 r C1) as [D1 D2]. destruct (_continue_backlog st2 r) as [st3 o2]. cbn in *. split; auto. apply no_neterr_app; auto.
+Qed.
+Lemma clean_retransmit : forall st h, clean st (_retransmit st h).
+Proof.
+  intros st h Hr. unfold _retransmit. destruct (xget _ (active_exchanges st)) as [[mon h0]|]; [|cbn; split; auto; intros t x [Hi|[]]; discriminate].
+  destruct (h_counter h <? MAX_RETRANSMIT (m_tuning (h_message h))).
+  - unfold _schedule_retransmit. cbn [fst snd]. apply clean_send_via. exact Hr.
+  - cbn [backlogs set_exchanges]. destruct (qget _ (backlogs st)); [|cbn; split; auto; intros t x [Hi|[]]; discriminate].
+    apply clean_tm_dispatch; [discriminate|exact Hr].
+Qed.
+Lemma clean_request : forall st rid r tn, clean st (tm_request st rid r tn).
+Proof.
+  intros st rid r tn Hr. unfold tm_request, send_message, _next_message_id. cbn [backlogs set_outgoing fst snd].
+  destruct (qget r (backlogs st)) as [q|].
+  - match goal with |- context [if ?c then _ else _] => destruct c end; [cbn; split; auto; apply no_neterr_nil|].
+    apply clean_tm_fail; [discriminate|exact Hr].
+  - apply clean_send_initially. exact Hr.
+Qed.
+Lemma clean_response : forall st r ty mid rid, clean st (dispatch_response st r ty mid rid).
+Proof.
+  intros st r ty mid rid Hr. unfold dispatch_response.
+  assert (C : clean st (if ty =? 0 then _remove_exchange st r mid false else (st, []))).
+  { destruct (ty =? 0); [apply clean_remove|]. intros _. cbn. split; auto. apply no_neterr_nil. }
+  destruct (if ty =? 0 then _remove_exchange st r mid false else (st, [])) as [st1 o1]. destruct (C Hr) as [C1 C2]. cbn in C1, C2.
+  unfold tm_process_response, send_empty, is_refusing.
+  destruct (existsb _ (outgoing_requests st1)); cbn [refusing set_outgoing]; rewrite C1; cbn [existsb]; destruct (ty =? 1); cbn; (split; [auto|]);
+    apply no_neterr_app; auto; intros t x Hi; cbn in Hi; intuition discriminate.
+Qed.
+
+Lemma step_clean : forall st e st' o, refusing st = [] -> step st e = (st', o) ->
+  (forall r, e <> ERefuse r true) -> (forall r, e <> EError r) -> refusing st' = [] /\ no_neterr o.
+Proof.
+  intros st e st' o Hr H Hnr Hne.
+  assert (G : forall res, clean st res -> res = (st', o) -> refusing st' = [] /\ no_neterr o) by (intros res C ->; apply (C Hr)).
+  destruct e as [rid r tn|r b mid|t| | |r|rid|r ty mid rid|r on]; cbn [step] in H.
+  - eapply G; [apply clean_request|exact H].
+  - eapply G; [apply clean_remove|exact H].
+  - inv H. split; auto. apply no_neterr_nil.
+  - destruct (next_timer st) as [h|]; [|inv H; split; auto; apply no_neterr_nil].
+    destruct (clean_retransmit (set_now st (Z.max (now st) (h_due h))) h Hr) as [C1 C2]. rewrite H in C1, C2. auto.
+  - destruct (next_timer st) as [h|]; [|inv H; split; auto; apply no_neterr_nil].
+    destruct (h_due h <=? now st); [|inv H; split; auto; apply no_neterr_nil]. eapply G; [apply clean_retransmit|exact H].
+  - exfalso. eapply Hne; eauto.
+  - inv H. split; auto. apply no_neterr_nil.
+  - eapply G; [apply clean_response|exact H].
+  - inv H. destruct on; [exfalso; eapply Hnr; eauto|]. cbn. rewrite Hr. split; auto. apply no_neterr_nil.
+Qed.
+
+Lemma run_clean : forall evs st st' os, refusing st = [] -> no_refusal evs -> run st evs = (st', os) ->
+  forall t rid, In (OFail t rid NetworkError) (concat os) -> exists r, In (EError r) evs.
+Proof.
+  induction evs as [|e evs IH]; intros st st' os Hr Hn H t rid Hi; cbn in H.
+  - inv H. destruct Hi.
+  - destruct (step st e) as [st1 o] eqn:E. destruct (run st1 evs) as [st2 os2] eqn:R. inv H. cbn in Hi. apply in_app_iff in Hi.
+    assert (Hd : (exists r, e = EError r) \/ forall r, e <> EError r) by (destruct e; try (right; intros; discriminate); left; eauto).
+    destruct Hd as [[r ->]|Hne]; [exists r; left; reflexivity|].
+    assert (Hnr : forall r, e <> ERefuse r true) by (intros r ->; apply (Hn r); left; reflexivity).
+    destruct (step_clean _ _ _ _ Hr E Hnr Hne) as [Hr1 Hc].
+    destruct Hi as [Hi|Hi]; [exfalso; eapply Hc; eauto|].
+    destruct (IH st1 _ os2 Hr1 (fun r Hin => Hn r (or_intror Hin)) R t rid Hi) as [r Hin]. exists r. right. exact Hin.
+Qed.
+
+(* on a transport that never refuses, a request fails with NetworkError only if the transport reported an error (EError) *)
+Lemma network_error_has_cause : forall mid0 draws evs tf rid, no_refusal evs ->
+  In (OFail tf rid NetworkError) (trace_of mid0 draws evs) -> exists r, In (EError r) evs.
+Proof.
+  intros mid0 draws evs tf rid Hn Hi. unfold trace_of in Hi. destruct (run (init mid0 draws) evs) as [st' os] eqn:R.
+  eapply (run_clean evs (init mid0 draws)); eauto.
+Qed.
+
+(* the give-up clause on a plain transport: no refusal, no transport error at all, no ACK / RST for the message, request not
+   cancelled / answered: exactly two outcomes -- still waiting for a timer that is not overdue, or failed with ConRetransmitsExceeded
+   at T0 + t(2^(R+1) - 1) after all 1 + R copies *)
+Lemma gives_up_plain : forall mid0 draws evs t m, wf_run draws evs -> no_refusal evs -> (forall r, ~ In (EError r) evs) ->
+  In (OSend t m) (trace_of mid0 draws evs) ->
+  ~ In (m_remote m, m_mid m) (recv_keys evs) -> ~ In (err_key (m_remote m)) (recv_keys evs) -> ~ In (gone_key (m_rid m)) (recv_keys evs) ->
+  exists T0 t0 n, copies (m_rid m) (trace_of mid0 draws evs) = sched_of m T0 t0 n /\ (0 < n)%nat /\ range (m_tuning m) t0 /\
+    Z.of_nat n <= MAX_RETRANSMIT (m_tuning m) + 1 /\
+    ( (exists e, In e (active_exchanges (final_of mid0 draws evs)) /\ h_message (e_timer e) = m /\
+                 h_due (e_timer e) = T0 + t0 * (2 ^ Z.of_nat n - 1) /\ now (final_of mid0 draws evs) <= h_due (e_timer e)) \/
+      (Z.of_nat n = MAX_RETRANSMIT (m_tuning m) + 1 /\
+       In (OFail (T0 + t0 * (2 ^ (MAX_RETRANSMIT (m_tuning m) + 1) - 1)) (m_rid m) ConRetransmitsExceeded) (trace_of mid0 draws evs)) ) /\
+    forall tf rid, ~ In (OFail tf rid NetworkError) (trace_of mid0 draws evs).
+Proof.
+  intros mid0 draws evs t m W Hn He Hin H1 H2 H3.
+  assert (Hnn : forall tf rid, ~ In (OFail tf rid NetworkError) (trace_of mid0 draws evs)).
+  { intros tf rid Hi. destruct (network_error_has_cause _ _ _ _ _ Hn Hi) as [r Hr]. eapply He; eauto. }
+  destruct (gives_up _ _ _ _ _ W Hin H1 H2 H3) as (T0 & t0 & n & Hc & Hn' & Hr & Hle & Hcase).
+  exists T0, t0, n. splits; auto. destruct Hcase as [Hc1|[Hc2|[tf Hf]]]; auto. exfalso. eapply Hnn; eauto.
 Qed.
